@@ -95,7 +95,7 @@ def denote(url: str, default_port: int = 1965) -> dict:
         port = int(port_str)
     return {
         "scheme": d["scheme"].lower(),
-        "host": host.lower(),
+        "host": (host.partition("%")[0].lower() + "".join(host.partition("%")[1:])) if d["host"].startswith("[") else host.lower(),
         "port": port,
         "path": d["path"] or "/",
         "query": d["query"] or "",
